@@ -12,6 +12,7 @@ from __future__ import annotations
 
 import copy
 import json
+import os
 import sqlite3
 
 from .. import universe as U, plan as P, observe, compare, xmlout
@@ -515,7 +516,116 @@ def build_b(seed):
 ORACLES_B = ['installed', 'image', 'integrity']
 
 
+HUGE_XML = '''<?xml version="1.0" encoding="UTF-8"?>
+<!DOCTYPE LexicalResource SYSTEM "http://globalwordnet.github.io/schemas/WN-LMF-1.1.dtd">
+<LexicalResource xmlns:dc="https://globalwordnet.github.io/schemas/dc/">
+  <Lexicon id="huge" label="Huge" language="en" email="m@example.com" license="MIT" version="1">
+    <LexicalEntry id="huge-e0"><Lemma writtenForm="w0" partOfSpeech="n"/>
+      <Sense id="huge-k0" synset="huge-s0"><SenseRelation relType="derivation" target="huge-k0"/></Sense>
+    </LexicalEntry>
+    <Synset id="huge-s0" ili="" partOfSpeech="n"><SynsetRelation relType="similar" target="huge-s0"/></Synset>
+  </Lexicon>
+</LexicalResource>
+'''
+
+
+def run_huge(seed):
+    """An add that writes more than a million rows (the size of a real wordnet: any batching,
+    intermediate commit or lock-yielding logic keyed on volume is crossed) and fails at its
+    very end: an unresolvable relation target in the last sense, or an exception from the
+    progress handler in one of the last callbacks.  The database must be what it was."""
+    import copy
+    rng = subseed(seed, 'huge')
+    u = {'profile': {'huge': True}, 'lexicons': {}, 'order': [], 'resources': [], 'ili_files': []}
+    sim = FaultySim(u, seed, PROP, [])
+    violation = None
+    mode = rng.choice(['F7-dangling', 'F1-late'])
+    try:
+        try:
+            wd = sim.W.workdir('huge')
+            path = os.path.join(wd, 'tiny.xml')
+            with open(path, 'w', encoding='utf-8') as f:
+                f.write(HUGE_XML)
+            res = wn.lmf.load(path, progress_handler=None)
+            lex = res['lexicons'][0]
+            ss0, e0 = lex['synsets'][0], lex['entries'][0]
+            rel0 = ss0['relations'][0]
+            n, k = 2100, 500
+            lex['synsets'] = [dict(ss0, id='huge-s%d' % i,
+                                   relations=[dict(rel0, target='huge-s%d' % ((i + j + 1) % n))
+                                              for j in range(k)]) for i in range(n)]
+            entries = []
+            for i in range(n):
+                e = copy.deepcopy(e0)
+                e['id'] = 'huge-e%d' % i
+                e['lemma']['writtenForm'] = 'w%d' % i
+                e['senses'][0].update(id='huge-k%d' % i, synset='huge-s%d' % i)
+                e['senses'][0]['relations'][0]['target'] = 'huge-k%d' % ((i + 1) % n)
+                entries.append(e)
+            lex['entries'] = entries
+            if mode == 'F7-dangling':
+                entries[-1]['senses'][0]['relations'][0]['target'] = 'huge-no-such-sense'
+            wn._db.connect()
+            sim.W.restart()
+            pre = observe.raw_dump(sim.W.dbpath())
+            sim.W.begin_op(budget=None, record=True)
+            if mode == 'F1-late':
+                # count the callbacks of this add on a scratch node first
+                cur = sim.W.cur
+                sim.W.use(sim.W.node('scratch') and 'scratch')
+                sim.call(wn.add_lexical_resource, copy.deepcopy(res), progress_handler=SimHandler)
+                K = sim.W.counters['cb']
+                sim.W.restart()
+                sim.W.use(cur)
+                sim.W.end_op()
+                sim.W.begin_op(budget=None)
+                sim.W.faults.cb_at = max(1, K - rng.choice([1, 2, 3]))
+                sim.W.faults.cb_exc = rng.choice(['fault', 'interrupt'])
+            _, exc = sim.call(wn.add_lexical_resource, res, progress_handler=SimHandler)
+            fired = sim.W.end_op()
+            detail = {'mode': mode, 'rows_attempted': n * k + 4 * n, 'exc': repr(exc)[:200],
+                      'fired': fired}
+            if exc is None:
+                raise Violation(PROP, 'huge-add', 'the faulty add of a huge resource did not '
+                                'fail', detail)
+            if any(x.startswith('F1-handler-close') for x in fired):
+                return None        # (the known finding about close(); nothing to judge)
+            sim.W.restart()
+            post = observe.raw_dump(sim.W.dbpath())
+            if post != pre:
+                changed = {t: [len(pre.get(t, [])), len(post.get(t, []))] for t in post
+                           if post[t] != pre.get(t)}
+                raise Violation(PROP, 'durable-state', 'failed add of a resource of more than a '
+                                'million rows changed the database (partial change)',
+                                dict(detail, rows_before_after=changed))
+            with open(path, 'w', encoding='utf-8') as f:
+                f.write(HUGE_XML)
+            _, exc = sim.call(wn.add, path, progress_handler=None)
+            if exc is not None or [x.specifier() for x in wn.lexicons()] != ['huge:1']:
+                raise Violation(PROP, 'usable-after', 'a valid add after the failed huge add '
+                                'does not give the normal result',
+                                dict(detail, exc2=repr(exc), lexicons=[x.specifier()
+                                                                       for x in wn.lexicons()]))
+        except Violation as v:
+            violation = v.to_json()
+        return {'seed': seed, 'violation': violation, 'digest': sim.W.event_digest(),
+                'ops': 1, 'faults': {mode: 1}, 'states': [], 'probes': {'huge-add': 1},
+                'cells': [], 'points': 1, 'nontrivial_points': 1, 'known_hits': {},
+                'nontrivial': True, 'sample': {'huge': mode},
+                'replay': {'mode': 'huge'}}
+    finally:
+        sim.close()
+
+
+def is_huge(seed, tier):
+    return tier == 'thorough' and seed % 600 == 5       # 2 of the 1200 thorough runs
+
+
 def run_one(seed, tier):
+    if is_huge(seed, tier):
+        r = run_huge(seed)
+        if r is not None:
+            return r
     if seed % 3 == 2:
         u, plan = build_b(seed)
         r = run_plan(PROP, seed, u, plan, ORACLES_B, ['check_fresh'], sim_cls=FaultySim)
@@ -529,6 +639,8 @@ def run_one(seed, tier):
 
 
 def replay(obj):
+    if obj.get('mode') == 'huge':
+        return run_huge(obj['seed'])
     if obj.get('mode') == 'B':
         return run_plan(PROP, obj['seed'], obj['universe'], obj['plan'], ORACLES_B,
                         ['check_fresh'], sim_cls=FaultySim)
